@@ -71,7 +71,7 @@ func checkC19(ctx *Ctx) {
 		"distinct_nontrivial = distinct (command, pre-state kind, outcome) classes of the step that preceded a checked point")
 	ctx.Assume("the per-key size function (KeyData.GetMem + key overhead) is the definition of 'accounted size'; only its agreement with the running counter is checked",
 		"asynchronous cache-update goroutines are awaited through the async.* hooks before every comparison")
-	if ctx.Fork(8, "", 15*time.Minute) {
+	if ctx.Fork(8, "", ctx.Watchdog()) {
 		return
 	}
 	quietLogs()
